@@ -111,6 +111,18 @@ class Emitter:
                     self.emit(ind + 1, "if %s: break" % cond_src(brk, False))
             if o:
                 self.emit(ind, "_endwhile(%s)" % self.ctx0)
+        elif k == "for2":
+            # two-argument form: public start, secret stop, public maximum
+            _, start, mx, blk, chk = st
+            self.loopvar += 1
+            iv = "i%d" % self.loopvar
+            if o:
+                self.emit(ind, "for %s in _range(%d, N, max=%d%s%s):" % (iv, start, mx, self.ctx, ", checkstopmax=True" if chk else ""))
+            else:
+                self.emit(ind, "for %s in range(%d, min(n, %d)):" % (iv, start, mx))
+            self.block(blk, ind + 1, iv)
+            if o:
+                self.emit(ind, "_endfor(%s)" % self.ctx0)
         elif k == "for":
             _, mx, blk, chk = st
             self.loopvar += 1
@@ -148,13 +160,16 @@ def uses(stmts):
     out = set()
     if "'b'" in s or "~b" in s or "b&" in s:
         out.add("b")
-    if "i!=n" in s or "'for'" in s:
+    if "i!=n" in s or "'for'" in s or "'for2'" in s:
         out.add("n")
     return out
 
 
 # ------------------------------------------------------------------------------------------------
 # enumeration
+
+LS_L1I = ("assign", "l1", "l1+i")
+
 
 def programs(level):
     """level 0: quick (nesting 1, short blocks); level 1: thorough (nesting 2, loops inside
@@ -191,6 +206,13 @@ def programs(level):
             for c in ("i!=n", "x<y"):
                 for brk in (None, "y==3", "b", "x>=4"):
                     out.append([("while", c, mx, blk, brk)])
+    # --- two-argument _range(start, secret stop, max)
+    for start, mx in ((1, 2), (1, 3), (2, 3), (2, 4)):
+        for blk in blocks1(LA)[:6]:
+            for chk in (False, True):
+                out.append([("for2", start, mx, blk, chk)])
+        out.append([("for2", start, mx, [LS_L1I], False)])
+        out.append([("if", [("b", [("for2", start, mx, [LA[0]], False)])], [A[1]])])
     # --- statement sequences at top level
     for a in A4:
         for c in CONDS[:3]:
